@@ -262,6 +262,16 @@ def run(ctx):
             add(text, ["map", [[t, t] for t in Kc]], ["map", [[t, t] for t in Ko]], rng.randint(1, 8),
                 rng.choice(CHUNKSIZES), tag="law_identity_map", group=("law", g, "idmap"))
 
+    # Files on which the model says ValueError (a line without exactly two tab fields) are filtered with one
+    # process and one chunk: when the exception leaves `with Pool(...)` while other workers are still sending
+    # results, CPython's Pool.terminate() can dead-lock (a worker killed while it holds the result queue's
+    # lock; seen 2 times in 400 runs under load by the C15 builder). That race is CPython's, outside C10 (which
+    # is about well-formed event files), and must not be able to stall this check.
+    pre = run_models([model_case(j["text"], j["rc"], j["ro"], j["chunksize"]) for j in file_jobs])
+    for j, mo in zip(file_jobs, pre):
+        if mo and mo[0] == -1:
+            j["n_jobs"], j["chunksize"] = 1, 100000
+            rep.bump("malformed_files_run_with_one_process_one_chunk")
     # run: batch the cases over worker processes (every call forks its own Pool)
     order = list(range(len(file_jobs)))
     rng.shuffle(order)
